@@ -184,7 +184,10 @@ def run(P, pid, tier, seed, skip_gate=False):
 
     replay_path = None
     if unknown:
-        v = shrink(P, unknown[0])
+        try:
+            v = shrink(P, unknown[0])
+        except Exception:  # noqa: B902 - shrinking is best effort
+            v = unknown[0]
         replay_path = common.write_replay(pid, {
             "property": pid, "kind": "failing-input", "class": v["cls"], "fails": v["fails"], "case": v["case"],
             "impl": v.get("impl"), "model": v.get("model"), "seed": seed, "tier": tier,
